@@ -113,6 +113,13 @@ def programs(ctx, variant=0):
     nerr = [256, 512, 255, 257][variant % 4]
     P["rejected-%d-errors" % nerr] = dict(files={"main.sy": "".join("w%d := := %d\n" % (i, i) for i in range(nerr))
                                                   + "start :: fn do end\n"}, main="main.sy", uses_std=False)
+    # very long generated lines (a line-buffered stdout takes a long unfinished line differently from a file)
+    P["accepted-long-list-line"] = dict(files={"main.sy": "level :: fn -> [int] do\n    ret [%s]\nend\nstart :: fn do\n    l := level()\n    l <=> l\nend\n"
+                                                 % ", ".join(str(i % 97) for i in range(3000))}, main="main.sy", uses_std=False)
+    nst = [200, 150, 250, 40][variant % 4]
+    P["accepted-long-string-after-%d-statements" % nst] = dict(files={"main.sy": "start :: fn do\n" + "".join(
+        "    q%d := %d\n" % (i, i) for i in range(nst)) + "    help := \"%s\"\n    help <=> help\nend\n" % ("lorem ipsum " * 125)},
+        main="main.sy", uses_std=False)
     P["rejected-syntax-2files"] = dict(files={
         "main.sy": "use other\nstart :: fn do\n    x := )\nend\n",
         "other.sy": "f :: fn do\n    1 +\nend\n"}, main="main.sy", uses_std=False)
